@@ -1318,6 +1318,11 @@ impl Value {
         let mut vis = DocumentVisitor::new(json.len(), smut);
         parser.parse_dom(&mut vis)?;
         let idx = parser.read.index();
+        // the document must end inside the input, not in the padding (an unterminated string
+        // is closed by the `x"x` sentinel)
+        if idx > json.len() {
+            return Err(parser.error(crate::error::ErrorCode::EofWhileParsing));
+        }
 
         // NOTE: root node should is the first node
         *self = unsafe { vis.root.as_ref().clone() };
